@@ -31,8 +31,8 @@ def cases(tier):
         ("ucisd", 3, (1, 1), 1, {"moB_orth": 1}, 0),
     ]
     T_ = [
-        ("rhf", 4, (2, 2), 2, {}, 0), ("uhf", 4, (2, 1), 2, {"ident": 1}, 1), ("uhf", 3, (2, 0), 2, {}, 1), ("ghf", 3, (1, 1), 2, {}, 1),
-        ("noci", 3, (2, 1), 2, {"ndets": 3}, 1), ("cisd", 4, (2, 2), 2, {}, 0), ("cisd_faster", 4, (2, 2), 2, {}, 0),
+        ("rhf", 4, (2, 2), 2, {"ident": 1}, 0), ("uhf", 4, (2, 1), 2, {"ident": 1}, 1), ("uhf", 3, (2, 0), 2, {}, 1), ("ghf", 3, (1, 1), 2, {}, 1),
+        ("noci", 3, (1, 1), 2, {"ndets": 3}, 1), ("cisd", 4, (2, 2), 2, {}, 0), ("cisd_faster", 4, (2, 2), 2, {}, 0),
         ("cisd", 4, (1, 1), 2, {}, 0), ("ucisd", 3, (2, 1), 1, {"moB_orth": 1}, 1), ("ucisd", 4, (2, 1), 1, {"moB_ident": 1}, 0),
         ("ucisd", 3, (2, 0), 1, {"moB_ident": 1}, 0), ("ucisd", 3, (2, 1), 2, {"moB_ident": 1}, 1),
     ]
